@@ -72,9 +72,9 @@ def _prep(crate):
     return dst
 
 
-def _env():
+def _env(crate=None):
     e = dict(os.environ)
-    e.update(CARGO_NET_OFFLINE='true', CARGO_TARGET_DIR=TARGET, VERIF_REPO=REPO)
+    e.update(CARGO_NET_OFFLINE='true', CARGO_TARGET_DIR=(TARGET + ('_' + crate if crate else '')), VERIF_REPO=REPO)
     return e
 
 
@@ -84,7 +84,7 @@ def run_kani(crate_dir, harness, timeout, playback=False, extra=()):
         cmd += ['-Z', 'concrete-playback', '--concrete-playback=print']
     t0 = time.time()
     try:
-        p = subprocess.run(cmd, cwd=crate_dir, env=_env(), stdout=subprocess.PIPE, stderr=subprocess.STDOUT,
+        p = subprocess.run(cmd, cwd=crate_dir, env=_env(os.path.basename(crate_dir)), stdout=subprocess.PIPE, stderr=subprocess.STDOUT,
                            text=True, timeout=timeout)
         out = p.stdout
     except subprocess.TimeoutExpired as e:
@@ -116,7 +116,7 @@ def playback_bytes(out):
 def replay_native(cex):
     """re-execute a recorded counterexample against the real code: cargo test in the twin crate"""
     d = _prep(cex['crate'])
-    env = _env()
+    env = _env(cex['crate'])
     env.update(cex.get('env', {}))
     cmd = cex.get('cmd') or ['cargo', 'test', '--offline', cex.get('test', 'replay'), '--', '--nocapture']
     p = subprocess.run(cmd, cwd=d, env=env, stdout=subprocess.PIPE, stderr=subprocess.STDOUT, text=True, timeout=900)
@@ -175,7 +175,7 @@ def _cex(setname, crate, h, crate_dir):
         cex['cmd'] = rp['cmd']
     # confirm natively
     d = _prep(crate)
-    e2 = _env()
+    e2 = _env(crate)
     e2.update(env)
     p = subprocess.run(cex.get('cmd') or ['cargo', 'test', '--offline', cex['test']], cwd=d, env=e2, stdout=subprocess.PIPE,
                        stderr=subprocess.STDOUT, text=True, timeout=900)
@@ -227,12 +227,19 @@ def counterexample_for(failure):
     if failure.get('counterexample'):
         return failure['counterexample']
     fn = failure.get('function') or ''
+    notes = []
     for setname, reg in REG.items():
         for h in reg['harnesses']:
             if fn and fn in h.get('twin_of', []):
                 d = _prep(reg['crate'])
                 st, out, dt, cmd = run_kani(d, h['name'], h.get('timeout', 600), extra=h.get('kani_args', ()))
                 if st == 'failed':
-                    return _cex(setname, reg['crate'], h, d)
-                return {'found': False, 'note': 'kani twin %s/%s: %s within bound (%s)' % (setname, h['name'], st, h.get('bound'))}
+                    c = _cex(setname, reg['crate'], h, d)
+                    if c.get('found'):
+                        return c
+                    notes.append('%s/%s failed but: %s' % (setname, h['name'], c.get('note')))
+                else:
+                    notes.append('kani twin %s/%s: %s within bound (%s)' % (setname, h['name'], st, h.get('bound')))
+    if notes:
+        return {'found': False, 'note': '; '.join(notes)}
     return {'found': False, 'note': 'no Kani twin registered for %s' % fn}
